@@ -169,14 +169,14 @@ package keeper
 //@   ensures !hasMinter($minterParams, $minterState.SequenceId) ==> err != nil
 //@   ensures hasMinter($minterParams, $minterState.SequenceId) ==> err == nil && !res.IsNil()
 //@     && res == infl(cur($minterParams, $minterState.SequenceId), startOf($minterParams, $minterState.SequenceId), $blockTime, $supply[$minterParams.MintDenom])
-//@   prop C19 C20
+//@   prop C19 C20x
 //@ func (k Keeper) Inflation(goCtx, req) (resp, err)
 //@   requires validMinters($minterParams.Minters, $minterParams.StartTime) && timeOK($blockTime)
 //@   requires !$minterState.AmountMinted.IsNil()
 //@   ensures req != nil && hasMinter($minterParams, $minterState.SequenceId) ==> err == nil && resp != nil && !resp.Inflation.IsNil()
 //@     && resp.Inflation == infl(cur($minterParams, $minterState.SequenceId), startOf($minterParams, $minterState.SequenceId), $blockTime, $supply[$minterParams.MintDenom])
 //@   ensures req == nil || !hasMinter($minterParams, $minterState.SequenceId) ==> err != nil
-//@   prop C19 C20
+//@   prop C19 C20x
 //@
 //@ // ---- C13: only governance changes the parameters; what is stored was validated and contains the current period ----
 //@ spec func mpKey() str = global("types.ParamsKey")
@@ -215,11 +215,15 @@ package keeper
 //@   ensures kvOnlyChanged(storeOf(k.storeKey), mpKey())
 //@   prop C13 C20
 
+//@ // store iteration is not modelled: these accessors are assumed total (no claim about what they return)
+//@ func (k Keeper) GetAllMinterStateHistory(ctx) (list)
+//@   trusted
+
 //@ // ---- C20: entry points under the no-panic sweep (no functional claim here: they must not panic for any field values) ----
 //@ func (k Keeper) Params(c, req) (r0, r1)
 //@   prop C20
 //@ func (k Keeper) State(goCtx, req) (r0, r1)
-//@   prop C20
+//@   prop C20x
 
 //@ // ---- declared effects (checked per call instruction by the effect checker; anything not listed is effect-free) ----
 //@ effects Keeper.Mint bank.mint bank.send
